@@ -4,6 +4,7 @@ import (
 	"bufio"
 	"bytes"
 	"context"
+	"crypto/tls"
 	"encoding/base64"
 	"fmt"
 	"io"
@@ -201,6 +202,46 @@ func runHsFaultScenario(seed int64, idx int) *scenario {
 			sc.tag("hs:both-deadlines")
 		}
 	}
+	if cfg.timeout && !cfg.server && !cfg.proxy {
+		// a direct wss dial whose peer accepts the connection and then says nothing: the TLS handshake
+		// is part of the opening handshake and ends at the HandshakeTimeout / context deadline (oracle only)
+		d := &websocket.Dialer{TLSClientConfig: &tls.Config{InsecureSkipVerify: true}}
+		ctx := context.Background()
+		if cfg.ctxDL {
+			var cancel context.CancelFunc
+			ctx, cancel = context.WithTimeout(ctx, 300*time.Millisecond)
+			defer cancel()
+		} else {
+			d.HandshakeTimeout = 300 * time.Millisecond
+		}
+		cl, sv := net.Pipe()
+		go io.Copy(io.Discard, sv)
+		d.NetDialContext = func(ctx context.Context, network, addr string) (net.Conn, error) { return cl, nil }
+		type dres struct {
+			c   *websocket.Conn
+			err error
+		}
+		ch := make(chan dres, 1)
+		start := time.Now()
+		go func() {
+			c, _, err := d.DialContext(ctx, "wss://backend.test/x", nil)
+			ch <- dres{c, err}
+		}()
+		select {
+		case x := <-ch:
+			if x.err == nil || x.c != nil {
+				sc.violate("wss dial to a peer that never answers the TLS handshake returned conn=%v err=%v", x.c != nil, x.err)
+			}
+			if el := time.Since(start); el > 3*time.Second {
+				sc.violate("wss dial to a silent peer took %v with a 300ms handshake bound", el.Round(time.Millisecond))
+			}
+		case <-time.After(6 * time.Second):
+			sc.violate("wss dial to a peer that never answers the TLS handshake did not return within 6s although the handshake is bounded by 300ms (ctx=%v)", cfg.ctxDL)
+		}
+		cl.Close()
+		sv.Close()
+		sc.tag("hs:tls-stall")
+	}
 	// every op fails in turn
 	n := len(t0.ops)
 	kinds := []string{"error", "timeout", "eof"}
@@ -307,11 +348,13 @@ func runGlueScenario(seed int64) *scenario {
 	}
 	var c *websocket.Conn
 	t := newTConn(g.log)
+	earlyK := 0
 	if server {
 		brSize := []int{16, 256, 257, 4096}[r.Intn(4)]
 		rbs := []int{0, 1, 255, 256, 4096}[r.Intn(5)]
 		k := r.Intn(minInt(len(stream), brSize) + 1)
 		pre := append([]byte(nil), stream[:k]...)
+		earlyK = k
 		t.chunks = g.chunking(append([]byte(nil), stream[k:]...))
 		br := bufio.NewReaderSize(&prefixThenConn{pre: pre, conn: t}, brSize)
 		if k > 0 {
@@ -394,8 +437,18 @@ func runGlueScenario(seed int64) *scenario {
 	g.c = c
 	g.t = t
 	g.cut = len(stream)
+	early := -1 // server: number of stream bytes that sat in the hijacked reader's buffer
+	if server {
+		early = earlyK
+	}
 	for i := 0; i < 20; i++ {
-		if !g.opReadMessage() {
+		ok := g.opReadMessage()
+		// C17: a message that lay wholly in the bytes net/http had already buffered is delivered without
+		// asking the socket for anything (the socket may be idle: the client is waiting for our answer)
+		if mi := i; ok && early >= 0 && mi < len(g.msgs) && g.msgs[mi].last >= 0 && g.frames[g.msgs[mi].last].end <= early && t.nRead > 0 {
+			sc.violate("message %d lay wholly within the %d bytes buffered before the upgrade, yet the socket was read %d time(s) before it was delivered", mi, early, t.nRead)
+		}
+		if !ok {
 			break
 		}
 	}
